@@ -9,12 +9,29 @@
  *   block 2: NCOPY commands; code table n=0, symbol C2 >= 256 -> every command is a copy of length C2-253;
  *            offset table n=0, symbol P2 -> every distance has P2 bits: 0, or 1 followed by P2-1 stream bits
  *   then the extra bits of the copies.
- * Symbolic: C1, C2 (copy length <= LENMAX), P2 <= 14, the extra bits (so the distances), T1, P1.
+ * The table prefix (2 x 52 bits = 13 bytes) is CONCRETE - one catalogue entry per harness instance, chosen by the
+ * defines C1V, C2V, P2V, T1V, P1V - so that symbolic execution folds the table reading; SYMBOLIC are the extra
+ * bits of the copies, i.e. the distances (all 2^(P2-1) values each).
  */
+#ifndef C1V
+#define C1V 0x41
+#endif
+#ifndef C2V
+#define C2V (256 + 5)
+#endif
+#ifndef P2V
+#define P2V 14
+#endif
+#ifndef T1V
+#define T1V 7
+#endif
+#ifndef P1V
+#define P1V 3
+#endif
 #ifndef CB_N
 #define CB_N 20
 #endif
-#define CB_CALLS 4
+#define CB_CALLS 40
 #include "stream_cb.h"
 #include <string.h>
 #ifdef MEMSET_MODEL
@@ -65,14 +82,21 @@ static void put(unsigned v, unsigned n)
 void harness(void)
 {
 	INPUT_ARRAY(u32, extra, NCOPY);
-	INPUT(u32, c1); INPUT(u32, c2); INPUT(u32, p2); INPUT(u32, t1); INPUT(u32, p1);
+#ifdef SPLIT_INIT
+	LHANewDecoder w0;                      /* arbitrary initial window (uninitialised = nondet) */
+#define WINDOW(k) (w0.ringbuf[k])
+#else
+#define WINDOW(k) ((u8) ' ')
+#endif
+	const unsigned c1 = C1V, c2 = C2V, p2 = P2V, t1 = T1V, p1 = P1V;   /* concrete table prefix (one catalogue entry) */
 	static u8 S[TOTAL];                    /* reference expansion */
 	static u8 out[LENMAX > 8 ? LENMAX : 8];    /* functional harness: only the bytes of one command are written */
 	unsigned i, c, t, len, d[NCOPY];
 	size_t n;
 
-	ASSUME(c1 < 256 && c2 >= 256 && c2 < 510 && c2 - 253 <= LENMAX && p2 <= 14 && t1 < 32 && p1 < 16);
-	for (i = 0; i < CB_CALLS; ++i) cb_short[i] = 0;      /* callback delivers what is asked; short reads are bits.c's subject */
+	CHECK(c1 < 256 && c2 >= 256 && c2 < 510 && c2 - 253 <= LENMAX && p2 <= 14 && t1 < 32 && p1 < 16, "harness: catalogue entry well-formed");
+	for (i = 0; i < CB_CALLS; ++i) cb_short[i] = 1;      /* callback delivers one byte per call, so that no symbolic byte enters the
+	                                                          bit buffer before the (byte-aligned, 13-byte) concrete table prefix is used up */
 	len = c2 - 253;
 
 	/* serialise */
@@ -95,34 +119,28 @@ void harness(void)
 	cb_len = (wp + 7) / 8;
 	CHECK(cb_len <= CB_N, "harness: stream fits");
 
-	/* LZ77 expansion of the command list; positions before the start of the output read as ' ' */
+	/* LZ77 expansion of the command list; positions before the start of the output read the
+	 * initial window (all spaces after init) */
 	t = 0;
 	for (i = 0; i < NLIT; ++i) S[t++] = (u8) c1;
 	for (c = 0; c < NCOPY; ++c) {
 		for (i = 0; i < LENMAX; ++i) {
 			if (i < len) {
-				S[t] = t >= d[c] + 1 ? S[t - d[c] - 1] : (u8) ' ';
+				S[t] = t >= d[c] + 1 ? S[t - d[c] - 1] : WINDOW((RING_BUFFER_SIZE + t - d[c] - 1) % RING_BUFFER_SIZE);
 				++t;
 			}
 		}
 	}
 
 #ifdef SPLIT_INIT
-	/* the state lha_lh_new_init establishes (shown on the real init by harness_init), built directly: window all
-	 * spaces, position 0, no block open, empty bit buffer; tree contents left ARBITRARY (a superset of the
-	 * initialised trees - the first block header overwrites what it needs) */
-	{
-		LHANewDecoder any;                /* uninitialised = arbitrary */
-		dec = any;
-#ifdef __CPROVER__
-		__CPROVER_array_set(dec.ringbuf, (uint8_t) ' ');
-#else
-		memset(dec.ringbuf, ' ', sizeof(dec.ringbuf));
-#endif
-		dec.ringbuf_pos = 0;
-		dec.block_remaining = 0;
-		bit_stream_reader_init(&dec.bit_stream_reader, cb_read, 0);
-	}
+	/* the state lha_lh_new_init establishes, generalised: position 0, no block open, empty bit buffer; the window
+	 * contents W are ARBITRARY here (the reference expansion reads W where a copy reaches before the start of the
+	 * output) and so are the tree contents (the first block header overwrites what it needs).  harness_init shows
+	 * on the real init that W is all spaces and the other fields are as set here. */
+	dec = w0;
+	dec.ringbuf_pos = 0;
+	dec.block_remaining = 0;
+	bit_stream_reader_init(&dec.bit_stream_reader, cb_read, 0);
 #else
 	CHECK(lha_lh5_decoder.init(&dec, cb_read, 0) == 1, "C01 H01.e2e: init succeeds");
 #endif
@@ -140,8 +158,12 @@ void harness(void)
 		}
 		t += len;
 	}
+#if P2V >= 3
 	if (d[0] >= 2 && d[0] <= 3 && len >= 5) WITNESS("copy mixes pre-filled window, literals and its own output");
+#endif
+#if P2V == 14
 	if (d[NCOPY - 1] == 16383) WITNESS("largest distance the ring can address");
+#endif
 	WITNESS("end");
 }
 
